@@ -16,6 +16,9 @@ def cases(rng, tier):
     # see the arguments of *its* defining call (static, computed and outermost-relative references)
     for i in range(n // 2):
         yield Case(program=gen.render(scope_program(rng)), tag='scope', nontrivial=True)
+    for i in range(n // 2):
+        t = scope_program(rng) if rng.random() < 0.5 else g.program()
+        yield Case(program=gen.render(bad_reference(rng, t)), tag='badref', nontrivial=True)
 
 
 def closure_program(rng):
@@ -138,6 +141,52 @@ def scope_program(rng):
     return prog
 
 
+def bad_reference(rng, t):
+    """one argument / function reference of the program replaced by an ill-scoped one — negative or too large a
+    position, a frame that does not exist — wherever it stands (call argument, callee, body, nested): the
+    reference must fail exactly when it is evaluated, never resolve to some other frame slot"""
+    paths = []
+
+    def walk(n, path):
+        if n[0] in ('arg', 'fref'):
+            paths.append(path)
+        if n[0] == 'call':
+            walk(n[1], path + (1,))
+            for i, a in enumerate(n[2]):
+                walk(a, path + (2, i))
+        elif n[0] == 'def':
+            walk(n[1], path + (1,))
+        elif n[0] == 'arg':
+            walk(n[1], path + (1,))
+    walk(t, ())
+    if not paths:
+        return t
+    direct = [p for p in paths if len(p) >= 2 and p[-2] == 2]       # references standing directly as a call argument
+    target = rng.choice(direct) if direct and rng.random() < 0.6 else rng.choice(paths)
+
+    def rebuild(n, path):
+        if not path:
+            if n[0] == 'arg':
+                k = rng.choice([0, 0, 0, 1, 2, 3])
+                if k == 0: return ('arg', gen.lit(-rng.randint(1, 3)), n[2])          # negative position
+                if k == 1: return ('arg', gen.lit(rng.randint(4, 9)), n[2])           # position beyond the frame
+                if k == 2: return ('arg', n[1], n[2] + rng.randint(3, 9))             # frame further out than exists
+                return ('arg', n[1], -(rng.randint(5, 9)))                            # … counted from the outermost
+            return ('fref', rng.choice([rng.randint(5, 9), -rng.randint(5, 9)]))
+        if n[0] == 'call':
+            if path[0] == 1:
+                return ('call', rebuild(n[1], path[1:]), n[2])
+            args = list(n[2])
+            args[path[1]] = rebuild(args[path[1]], path[2:])
+            return ('call', n[1], args)
+        if n[0] == 'def':
+            return ('def', rebuild(n[1], path[1:]))
+        if n[0] == 'arg':
+            return ('arg', rebuild(n[1], path[1:]), n[2])
+        return n
+    return rebuild(t, target)
+
+
 def relevant(rec, case):
     d = rec.get('detail', {})
     a, m = d.get('impl', {}), d.get('model', {})
@@ -153,7 +202,7 @@ SPEC = {
     'relevant': relevant,
     'stream': 'C02 typed/closure program stream (main.main result vs uhdrv main)',
     'rule': 'type-directed random closed programs (closures returned / passed / nested ≤ depth, computed and negative '
-            'indices, Boolean / list / dict / string callables) plus closure families and the scope family (one enclosing closure applied along several argument paths; inner bodies refer to outer parameters statically, as computed positions, from nested functions, outermost-relative); a case is non-trivial when its '
+            'indices, Boolean / list / dict / string callables) plus closure families, the badref family (one reference made ill-scoped: negative / too large position, non-existent frame) and the scope family (one enclosing closure applied along several argument paths; inner bodies refer to outer parameters statically, as computed positions, from nested functions, outermost-relative); a case is non-trivial when its '
             'tree has ≥ 8 nodes; distinct by program text',
     'trusted': ['hand-written model UH/Model/{Interp,Builtins,Machine}.lean tied to the code by correspondence only'],
     'assumptions': ['host big integers = Lean Int; IEEE-754 + − × ÷ of the host on both sides'],
